@@ -29,7 +29,10 @@ func (m minDistance) negative() distance        { return minDistance(s1.Negative
 func (m minDistance) infinity() distance        { return minDistance(s1.InfChordAngle()) }
 func (m minDistance) less(other distance) bool  { return m.chordAngle() < other.chordAngle() }
 func (m minDistance) sub(other distance) distance {
-	return minDistance(m.chordAngle() - other.chordAngle())
+	// Subtract as angles, clamping at zero (a ChordAngle holds a squared chord
+	// length, so a plain float subtraction is neither an angle difference nor
+	// guaranteed to be a valid ChordAngle).
+	return minDistance(m.chordAngle().Sub(other.chordAngle()))
 }
 func (m minDistance) chordAngleBound() s1.ChordAngle {
 	return m.chordAngle().Expanded(m.chordAngle().MaxAngleError())
